@@ -15,6 +15,7 @@ ROOT = os.path.dirname(os.path.abspath(__file__))
 HARNESS = os.path.join(ROOT, "harness")
 GOSYM = os.path.join(ROOT, "bin", "gosym")
 ENV = dict(os.environ, GOFLAGS="-mod=mod", GOPROXY="off", GOSUMDB="off", GOTOOLCHAIN="local")
+ENGINE_ENV = dict(ENV, GOGC="400", GOMAXPROCS="3")
 NCPU = int(os.environ.get("VERIF_JOBS", "14"))
 
 
@@ -48,7 +49,7 @@ def run_engine(run, tier, seed, workdir, idx):
     for k, v in sorted(run.get("params", {}).items()):
         cmd += ["-param", "%s=%d" % (k, v)]
     t0 = time.time()
-    r = sh(cmd)
+    r = subprocess.run(cmd, stdout=subprocess.PIPE, stderr=subprocess.STDOUT, text=True, env=ENGINE_ENV)
     res = None
     if os.path.exists(out):
         try:
